@@ -140,6 +140,17 @@ type c08proxy struct {
 	Absent func(x int, y string) (string, error) `name:"noSuchMethod"`
 }
 
+// c08nested: proxies nested two and three levels deep ("Deep_Er_Inc").
+type c08nested struct {
+	Deep struct {
+		Inc func(x int) (int, error)
+		Er  struct {
+			Inc  func(x int) (int, error)
+			Pair func(a int, b string) (string, int, error)
+		}
+	}
+}
+
 var c08Names = []string{"Nop", "Inc", "Pair", "Sum", "Prefix", "Ctx", "Fail", "Boom", "Outer", "Tagged", "Map", "Strs", "Any", "Bytes", "Time", "Float", "Three", "Big"}
 
 func c08render(v interface{}) string {
@@ -216,6 +227,8 @@ type c08call struct {
 	want    []interface{}
 	wantErr string // "" = success
 	logWant string
+	// nestedPath: field path in the nested proxy (nil: the flat proxy)
+	nestedPath []string
 }
 
 func scenC08(r *Run) {
@@ -270,6 +283,14 @@ func scenC08(r *Run) {
 		}
 		service.AddFunction(sv.MethodByName(n).Interface(), alias)
 	}
+	// the same functions under nested names, for the nested proxy
+	for _, nn := range [][2]string{{"Inc", "Deep_Inc"}, {"Inc", "Deep_Er_Inc"}, {"Pair", "Deep_Er_Pair"}} {
+		alias := nn[1]
+		if ns != "" {
+			alias = ns + "_" + alias
+		}
+		service.AddFunction(sv.MethodByName(nn[0]).Interface(), alias)
+	}
 	service.AddMissingMethod(func(name string, args []interface{}) ([]interface{}, error) {
 		log.add("missing:"+name, args...)
 		return []interface{}{"missing " + name + " " + fmt.Sprint(len(args))}, nil
@@ -291,6 +312,12 @@ func scenC08(r *Run) {
 		client.UseService(proxy)
 	}
 	pv := reflect.ValueOf(proxy).Elem()
+	nested := &c08nested{}
+	if ns != "" {
+		client.UseService(nested, ns)
+	} else {
+		client.UseService(nested)
+	}
 
 	bigN := []int{1, 10, 100, 2000}
 	if kind == "udp" {
@@ -372,11 +399,18 @@ func scenC08(r *Run) {
 		}
 		return nil
 	}
-	names := append(append([]string{}, c08Names...), "Absent")
+	names := append(append([]string{}, c08Names...), "Absent", "Deep.Inc", "Deep.Er.Inc", "Deep.Er.Pair")
 	for c := 0; c < ncallers*perCaller; c++ {
 		id++
 		n := names[r.Plan(len(names))]
 		cl := &c08call{id: id, name: n, viaRaw: r.PlanBool(3), args: genArgs(n)}
+		if strings.Contains(n, ".") {
+			// a nested proxy field: same function as its last path element, always through the proxy
+			cl.nestedPath = strings.Split(n, ".")
+			cl.name = cl.nestedPath[len(cl.nestedPath)-1]
+			cl.args = genArgs(cl.name)
+			cl.viaRaw = false
+		}
 		calls = append(calls, cl)
 	}
 	// local reference: the same function, called directly on a deep copy of the arguments
@@ -455,6 +489,12 @@ func scenC08(r *Run) {
 					cl.got, cl.gotErr = client.InvokeContext(core.WithContext(context.Background(), cc), name, args)
 				} else {
 					f := pv.FieldByName(cl.name)
+					if cl.nestedPath != nil {
+						f = reflect.ValueOf(nested).Elem()
+						for _, p := range cl.nestedPath {
+							f = f.FieldByName(p)
+						}
+					}
 					in := make([]reflect.Value, len(args))
 					ft := f.Type()
 					for i, a := range args {
